@@ -448,6 +448,71 @@ fn run(ctx: &mut Ctx) {
             });
         }
     }
+    // the named getters of the boot information are casts too: each hands out a view of a tag of its own type only
+    ctx.bound("named_getters", format!("regions [one tag of built-in kind K, size 8..={} (VBE: 8..=800)][end tag] x all 22 named getters: the getter of kind K panics or returns the tag's address with a view of exactly its padded size; every other getter returns nothing or panics (the end-tag getter returns the end tag, 8 bytes)", max));
+    let rarena = Arena::new(3);
+    for kind in 1..=21u32 {
+        let top = if kind == bi::VBE { 800 } else { max };
+        let base = bi::sample(kind, 1, 1);
+        for size in 8..=top {
+            let mut img = base.clone();
+            img.resize(round8(size).max(8), 0);
+            for i in base.len().min(img.len())..img.len() {
+                img[i] = marker(i, 73);
+            }
+            img.truncate(round8(size));
+            wr32(&mut img, 4, size as u32);
+            if kind == bi::ELF && img.len() >= 12 {
+                wr32(&mut img, 8, 0);
+            }
+            let mut region = vec![0u8; 8];
+            region.extend_from_slice(&img);
+            region.extend_from_slice(&[0, 0, 0, 0, 8, 0, 0, 0]);
+            let n = region.len() as u32;
+            wr32(&mut region, 0, n);
+            let describe = || J::obj().set("seam", "named getters").set("type", bi::kind_name(kind)).set("tag_size", size);
+            ctx.leaf(describe, |ctx| {
+                ctx.state_direct();
+                ctx.nontrivial();
+                rarena.fill(arena::FILL_B);
+                let p = rarena.place_right(&region);
+                let Out::Val(Ok(b)) = ctx.call("load", || unsafe { multiboot2::BootInformation::load(p as *const multiboot2::BootInformationHeader) }) else {
+                    ctx.violation("c15/region-load", || "load failed on a well-formed region".into());
+                    return;
+                };
+                for g in 0..=21u32 {
+                    let recs = {
+                        let mut bat = Bat::new(ctx, p);
+                        bat.debug = false;
+                        bat.derived = false;
+                        battery::getter_level(&mut bat, g, &b, p, BatOpts { vbe_memory_model: true, elf_names: false });
+                        bat.recs
+                    };
+                    let get = recs.iter().find(|r| r.name == "getter").map(|r| r.val.clone());
+                    let sov = recs.iter().find(|r| r.name == "size_of_val").map(|r| r.val.clone());
+                    let ok = if g == kind {
+                        match (&get, &sov) {
+                            (Some(Val::Panic), _) => true,
+                            (Some(Val::U(8)), Some(Val::U(s))) => *s as usize == round8(size),
+                            (Some(Val::U(8)), Some(Val::Panic)) => true,
+                            // the framebuffer getter reports an unknown type byte as an error value
+                            (Some(Val::E(e)), _) => kind == bi::FRAMEBUFFER && *e >= 0x100,
+                            _ => false,
+                        }
+                    } else if g == bi::END {
+                        matches!((&get, &sov), (Some(Val::U(o)), Some(Val::U(8))) if *o as usize == 8 + round8(size))
+                    } else {
+                        // a getter may refuse by panicking (the EFI map getter looks at the boot-services tag first)
+                        matches!(get, Some(Val::E(0)) | Some(Val::Panic))
+                    };
+                    if !ok {
+                        ctx.violation(&format!("c15/view-size/getter/{}", bi::kind_name(g)), || format!("region with one {} tag of size {}: the {} getter gives offset {:?}, size_of_val {:?}; must be {}", bi::kind_name(kind), size, bi::kind_name(g), get, sov, if g == kind { format!("a panic or offset 8 and {}", round8(size)) } else { "nothing".into() }));
+                    }
+                }
+                ctx.class("getters:walked");
+            });
+        }
+    }
 }
 
 fn main() {
